@@ -97,3 +97,45 @@ def run(F, R):
     bc = [b for b in F.find(r"async_graphql::response::\{impl#\d+\}::cache_control") if b.impl_self and "BatchResponse" in b.impl_self]
     ok = any(c for b in bc for x in F.with_nested(b) for c in x.calls_to(r"cache_control::\{impl#\d+\}::merge$"))
     R.check(ok, "R20.4", "BatchResponse::cache_control:folds-with-merge", bc[0].where() if bc else "-", "folds with merge", "batch policy is not the merge of its items")
+
+    R.rule("R20.6", "the policy is attached on every path: in each body that calls Response::cache_control after execute_once / Extensions::execute, no return is "
+                    "reachable from the execution call without passing cache_control() (a response with errors and partial data keeps the computed policy too)")
+    n6 = 0
+    for key, pat in paths.items():
+        for b in F.find(pat):
+            cc_calls = b.calls_to(r"response::\{impl#\d+\}::cache_control$")
+            ex = [c for c in b.calls() if c.callee and re.search(r"schema::\{impl#\d+\}::execute_once$", c.callee)]
+            if not cc_calls or not ex:
+                continue
+            n6 += 1
+            skip = []
+            for e in ex:
+                after = b.reachable_after(e.bb, avoid=[c.bb for c in cc_calls])
+                if any(x in after for x in b.exits()):
+                    skip.append(e.where())
+            k2 = re.sub(r"\{closure#\d+\}", "{c}", re.sub(r"\{impl#\d+\}", "{impl}", b.defp.replace("async_graphql::", "")))
+            R.check(not skip, "R20.6", "policy-attached-on-every-path:" + k2, cc_calls[0].where(), "every path from execute_once to the return attaches the policy",
+                    "after execute_once (%s) the response can be returned without cache_control(): e.g. responses that carry errors (but still data) fall back to the "
+                    "default public policy" % skip[:1])
+    R.floor("R20.6", "bodies that execute and attach the policy", n6, 2)
+
+    R.rule("R20.7", "merged objects combine their members' type-level policies: MergedObject<A,B>::create_type_info merges the cache_control of every member it "
+                    "expands (one CacheControl::merge per create_fake_output_type), never overwrites the accumulated policy")
+    n7 = 0
+    for b in F.find(r"^async_graphql::types::merged_object::\{impl#\d+\}::create_type_info"):
+        if "MergedObject<" not in (b.impl_self or ""):
+            continue
+        fakes = [c for c in b.calls() if c.callee and re.search(r"registry::\{impl#\d+\}::create_fake_(output|subscription)_type$", c.callee)]
+        if not fakes:
+            continue
+        n7 += 1
+        merges = [c for c in b.calls() if c.callee and re.search(r"cache_control::\{impl#\d+\}::merge$", c.callee)]
+        key = re.sub(r"\{closure#\d+\}", "{c}", b.defp.replace("async_graphql::types::merged_object::", ""))
+        has_cc = any("cache_control" in str(st) for bb, st in b.all_stmts())
+        if not has_cc and not merges:
+            continue
+        R.check(len(merges) >= len(fakes), "R20.7", "MergedObject::create_type_info:merges-every-member:" + key, b.where(),
+                "%d members expanded, %d merges" % (len(fakes), len(merges)),
+                "MergedObject::create_type_info expands %d members but merges only %d policies: a member's stricter object-level hint (private / no-cache / smaller "
+                "max-age) is overwritten by another member's" % (len(fakes), len(merges)))
+    R.floor("R20.7", "merged-object type builders", n7, 1)
